@@ -30,8 +30,9 @@ const char* kBehaviours[] = { "orderly", "close-mid-request", "half-close", "rst
                               "silence", "partial-then-silence", "tmo", "tmoreply", "file", "file-abort", "async-abort", "never-close", "stream",
                               "silence-close-near-timeout", "silence-abort-near-timeout", "stall-beyond-timeout",
                               "abandon-at-once-close", "abandon-at-once-abort", "abandon-at-once-half-close",
-                              "tmo-then-close", "tmo-then-abort", "stall-resume-trickle", "request-then-abort-quickly", "async-close", "tmo-moved" };
-constexpr int kNumBeh = 27;
+                              "tmo-then-close", "tmo-then-abort", "stall-resume-trickle", "request-then-abort-quickly", "async-close", "tmo-moved",
+                              "stall-then-leave", "stream-then-abort-quickly" };
+constexpr int kNumBeh = 29;
 
 Json gen(sim::Rng& rng, int tier)
 {
@@ -49,20 +50,24 @@ Json gen(sim::Rng& rng, int tier)
     //  flush-race: one worker, streamed responses (whose flush() writes whatever is queued for any connection)
     //              next to clients that reset their connection right behind a request
     int mixk = static_cast<int>(rng.below(10));
-    std::string mix = mixk == 0 ? "async-race" : mixk == 1 ? "flush-race" : "";
+    //  idle-race:  connections whose reader stalls beyond the idle time-out and that leave while the idle scan's 408 is still
+    //              queued behind the blocked response, followed (next round, same descriptor numbers) by silent connections
+    std::string mix = mixk == 0 ? "async-race" : mixk == 1 ? "flush-race" : mixk == 2 ? "idle-race" : "";
+    static const char* kIdleRace[] = { "stall-then-leave", "stall-then-leave", "stall-then-leave", "silence", "silence", "partial-then-silence", "orderly" };
     static const char* kAsyncRace[] = { "async-abort", "async-abort", "async-close", "orderly" };
-    static const char* kFlushRace[] = { "stream", "stream", "request-then-abort-quickly", "request-then-abort-quickly", "rst-unread", "orderly" };
+    static const char* kFlushRace[] = { "stream", "stream-then-abort-quickly", "request-then-abort-quickly", "request-then-abort-quickly", "rst-unread", "orderly" };
     if (!mix.empty()) {
         p["mix"] = mix;
         p["mode"] = "http";
         if (mix == "flush-race") p["workers"] = 1;
+        if (mix == "idle-race") rounds = std::max(rounds, 2);
     }
     for (int r = 0; r < rounds; ++r) {
         Json conns = Json::array();
         int n = static_cast<int>(rng.range(mix.empty() ? 1 : 2, tier ? 6 : 4));
         for (int i = 0; i < n; ++i) {
             Json c = Json::object();
-            c["behaviour"] = mix == "async-race" ? kAsyncRace[rng.below(4)] : mix == "flush-race" ? kFlushRace[rng.below(6)] : kBehaviours[rng.below(kNumBeh)];
+            c["behaviour"] = mix == "async-race" ? kAsyncRace[rng.below(4)] : mix == "flush-race" ? kFlushRace[rng.below(6)] : mix == "idle-race" ? kIdleRace[rng.below(7)] : kBehaviours[rng.below(kNumBeh)];
             if (mix == "async-race") c["leave_at_us"] = static_cast<int>(std::max<i64>(0, p.num("app_delay_us", 0) + static_cast<i64>(rng.below(600)) - 300));
             c["tag"] = static_cast<long long>(++tag);
             c["requests"] = static_cast<int>(rng.range(1, 3));
@@ -244,6 +249,12 @@ void run(const Json& plan)
                 st.push_back(httpw::send_step(req("/size/" + std::to_string(std::max<long>(size, 1000)) + "/" + tag)));
                 st.push_back(httpw::step(Step::Pause, 1000 + (delay % 400000)));
                 st.push_back(httpw::step(Step::Abort));
+            } else if (b == "stream-then-abort-quickly") {
+                // the reset arrives while the handler is still writing and flushing the chunks of this connection's own response
+                st.push_back(httpw::step(Step::StopReading));
+                st.push_back(httpw::send_step(req("/stream/8/" + std::to_string(std::min<long>(size, 5000) + 1) + "/" + tag)));
+                st.push_back(httpw::step(Step::Pause, delay % 300000));
+                st.push_back(httpw::step(Step::Abort));
             } else if (b == "silence") {
                 st.push_back(httpw::step(Step::AwaitClose, (std::max(hto, bto) + 2000) * 1000000LL));
                 st.push_back(httpw::step(Step::Close));
@@ -271,6 +282,20 @@ void run(const Json& plan)
                 st.push_back(httpw::step(Step::ResumeReading));
                 st.push_back(httpw::step(Step::AwaitClose, 3000LL * 1000000LL));
                 st.push_back(httpw::step(Step::Close));
+            } else if (b == "stall-then-leave") {
+                // a response larger than the buffers is pending, the reader sleeps beyond the idle time-out (the idle scan's
+                // 408 is queued behind the blocked response) and then leaves without ever reading
+                st.push_back(httpw::step(Step::StopReading));
+                st.push_back(httpw::send_step(req("/size/300000/" + tag)));
+                st.push_back(httpw::step(Step::Pause, (std::max(hto, bto) + 200 + (delay / 1000) % 1500) * 1000000LL));
+                int how = static_cast<int>(c.num("cut_permille", 0) % 3);
+                if (how == 0) st.push_back(httpw::step(Step::Close));
+                else if (how == 1) st.push_back(httpw::step(Step::Abort));
+                else {
+                    st.push_back(httpw::step(Step::ShutdownWr));
+                    st.push_back(httpw::step(Step::Pause, 300 * 1000000LL));
+                    st.push_back(httpw::step(Step::Close));
+                }
             } else if (b == "stall-resume-trickle") {
                 // as above, but the moment the reader wakes up it also sends: the descriptor becomes writable (pending
                 // response, then the idle scan's 408 and the disconnection chained to it) and readable at the same time
@@ -386,6 +411,17 @@ void run(const Json& plan)
             }
         }
     }
+    // (1b) a connection that stays silent is ended by the idle time-out: the server, not the client, closes it
+    if (http)
+        for (auto& cp : all) {
+            if (cp.behaviour != "silence" && cp.behaviour != "partial-then-silence") continue;
+            auto& stc = cp.client->st;
+            if (!stc.connected) continue;
+            bool by_server = (stc.peer_fin && stc.fin_at >= 0 && stc.fin_at <= stc.connected_at + (std::max(hto, bto) + 1500) * 1000000LL)
+                             || (stc.reset && stc.reset_at >= 0 && stc.reset_at <= stc.connected_at + (std::max(hto, bto) + 1500) * 1000000LL);
+            if (!by_server)
+                r.violation("C08.idle:silent-connection-not-released-by-the-idle-time-out:" + cp.behaviour, "a connection that sent " + std::string(cp.behaviour == "silence" ? "nothing" : "part of a request") + " and then stayed silent was still held by the server " + std::to_string(std::max(hto, bto) + 1500) + " ms after it was accepted (time-outs " + std::to_string(hto) + "/" + std::to_string(bto) + " ms); only the client's own close released it");
+        }
     // (2) every descriptor released exactly once
     for (auto& a : simk::anomalies()) {
         if (a.kind == "close.ebadf" || a.kind == "close.untracked") r.violation("C08.release:descriptor-closed-twice", a.detail);
